@@ -45,6 +45,9 @@ type Segment struct {
 	Sparse int `json:"sparse,omitempty"`
 	// NoTags: the host passes a nil tag map (text input has no tags)
 	NoTags bool `json:"no_tags,omitempty"`
+	// ManyTags: the host passes this many additional tags (x0000, x0001, ...): wide points, around
+	// sizes where limits and container growth live
+	ManyTags int `json:"many_tags,omitempty"`
 }
 
 type Workload struct {
@@ -165,6 +168,10 @@ func (Prop) Generate(seed uint64, tier string) *core.Plan {
 				sg.Sparse = 1 + r.Intn(sparse)
 			}
 			sg.NoTags = r.Intn(4) == 0
+			if r.Intn(24) == 0 {
+				sg.ManyTags = []int{7, 8, 63, 64, 127, 128, 255, 256, 257, 300, 1024}[r.Intn(11)]
+				sg.NoTags = false
+			}
 			segs = append(segs, sg)
 		}
 		w.Tasks = append(w.Tasks, segs)
@@ -176,6 +183,8 @@ func (Prop) Generate(seed uint64, tier string) *core.Plan {
 			Recycle: []float64{0.3, 0.8, 1}[r.Intn(3)],
 			Purge:   []float64{0, 0.01, 0.05}[r.Intn(3)],
 			Shuffle: []float64{0, 0.5, 1}[r.Intn(3)],
+			// a task stalls at a pool operation while the others pass several of theirs
+			Stall: []float64{0, 0.05, 0.25}[r.Intn(3)],
 		},
 	}
 	p.SetWorkload(&w)
@@ -508,6 +517,9 @@ func (t *taskRun) run(ld []*runtime.Script, base int, when func() (tm input.Poin
 		if sg.NoTags {
 			tags = nil
 		}
+		for i := 0; i < sg.ManyTags; i++ {
+			tags[fmt.Sprintf("x%04d", i)] = "v"
+		}
 		input.InitPt(pt, "m", tags, initialFields(sg), simrt.Now())
 		t.remember(pt)
 		if cls, detail := invariants(pt); cls != "" {
@@ -627,6 +639,7 @@ func (Prop) Run(p *core.Plan) *core.Result {
 	res.Faults["pool_recycle"] = int(w2.Fired[simrt.KPoolGet])
 	res.Faults["pool_purge"] = int(w2.Fired[simrt.KPurge])
 	res.Faults["task_switch"] = int(w2.Fired[simrt.KSched])
+	res.Faults["task_stall"] = int(w2.Fired[simrt.KStall])
 	res.Faults["map_order_permuted"] = int(w2.Fired[simrt.KMapOrd])
 	nops := 0
 	for ti, t := range inter {
@@ -753,6 +766,14 @@ func (Prop) Shrink(p *core.Plan) []*core.Plan {
 			if sg.NoTags {
 				nw := clone()
 				nw.Tasks[ti][si].NoTags = false
+				mk(nw)
+			}
+			if sg.ManyTags > 0 {
+				nw := clone()
+				nw.Tasks[ti][si].ManyTags = 0
+				mk(nw)
+				nw = clone()
+				nw.Tasks[ti][si].ManyTags = sg.ManyTags - 1
 				mk(nw)
 			}
 			if sg.F1 != "int64" {
